@@ -174,9 +174,11 @@ dataLoop:
 		if !dec.IsZero() {
 			amount = amount.AddAmount(sdk.NewInt(1))
 		}
+		// the renewal belongs to (and is paid by) the model's owner, who signed this request — not to
+		// whoever signed the order of the latest version, which may be a read-write grantee
 		newOrder := ordertypes.Order{
 			Creator:   msg.Creator,
-			Owner:     order.Owner,
+			Owner:     metadata.Owner,
 			Provider:  msg.Provider,
 			Cid:       order.Cid,
 			Duration:  proposal.Duration,
